@@ -13,6 +13,8 @@ import re
 ID11 = "dQw4w9WgXcQ"          # well-formed video id
 ID13 = ID11 + "12"            # too long (fix_common_mistakes cuts it to 11)
 UC = "UCWvUxN9LAjJ-sTc5JJ3gEyA"
+ID11B = "aaaaaaaaaaa"         # another well-formed video id
+CONT = "continue=https%3A%2F%2Fwww.youtube.com%2Fsignin%3Fnext%3D%252Fwatch%253Fv%253D"   # nested continuation (as in the test-suite)
 
 
 def plain(host, p):
@@ -56,10 +58,11 @@ SPEC = {
         "decos": ["", "?v=" + ID11 + "&list=PL1"],
         "qroutes": ["youtube.com/watch", "youtube.com/watch/", "youtube.com/", "youtube.com", "youtube.com/embed/" + ID11, "youtube.com/nom",
                     "youtube.com/playlist", "youtube.com/signin", "youtube.com/attribution_link", "youtube.com/c/nom",
-                    "youtube.com/shorts/" + ID11, "youtu.be/" + ID11, "youtu.be/", "youtu.be"],
+                    "youtube.com/shorts/" + ID11, "youtu.be/" + ID11, "youtu.be/", "youtu.be", "https://www.youtube.com/signin",
+                    "https://accounts.youtube.com/accounts/SetSID"],
         "qitems": ["v=" + ID11, "v=" + ID13, "v=abc", "v=", "v", "list=PL1", "list=", "next=%2Fwatch%3Fv%3D" + ID11, "next=%2Fwatch%3Fv%3Dabc",
-                   "feature=share", "u=%2Fwatch%3Fv%3D" + ID11 + "%26feature%3Dshare", "t=1"],
-        "frags": ["", "#/watch?v=" + ID11, "#!/watch?v=abc", "#%2Fwatch%3Fv%3D" + ID11, "#t=1"],
+                   "feature=share", "u=%2Fwatch%3Fv%3D" + ID11 + "%26feature%3Dshare", "t=1", CONT + ID11, CONT + "abc"],
+        "frags": ["", "#/watch?v=" + ID11B, "#!/watch?v=abc", "#%2Fwatch%3Fv%3D" + ID11, "#t=1"],
     },
     "twitter": {
         "host": "twitter.com",
@@ -108,16 +111,17 @@ SPEC = {
     },
 }
 
-# triage labels only (first route word found in the input)
-_NOT_ROUTES = frozenset(["nom", "a.456", "@handle", "@", ID11, ID13, "abc", UC, "@User", "user", "user.name", "us-er_1", "BxKRx5CHn5i",
-                         "bad!code", "@x", "a b", "é", "chan", "Chan_1", "AAAAAE-x_y", "+abc", "ID_1-x", "x.amp.html", "i", "s", "p", "c",
-                         "v", "d", "e", "u", ""])
-_MORE_ROUTES = {"youtube": ["youtu.be", "next=", "/v/", "/c/"], "twitter": ["/i", "#!"], "telegram": ["/s"], "instagram": ["/p"],
-                "google": ["/d"], "facebook": []}
-ROUTE_WORDS = {}
-for _p, _S in SPEC.items():
-    _w = set(w for w in _S["vocab"] if w not in _NOT_ROUTES and not w[0].isdigit()) | set(_MORE_ROUTES[_p])
-    ROUTE_WORDS[_p] = sorted(_w, key=lambda w: (-len(w), w))
+# triage labels only: the first of these words (in this order) that occurs in the input
+ROUTE_WORDS = {
+    "facebook": ["watch", "videos/", "photo.php", "photos/", "posts/", "permalink.php", "story.php", "groups/", "profile.php", "people",
+                 "photo", "l.php"],
+    "youtube": ["youtu.be", "next%3D", "next=", "#", "/watch", "/embed/", "/video/", "/v/", "/user/", "/channel/", "/shorts/", "/c/", "/@",
+                "/playlist", "/feed"],
+    "twitter": ["#!", "/i/lists", "/i", "/status", "/search", "/home"],
+    "instagram": ["/p/", "/reels/", "/reel/", "/tv/", "/stories", "/explore"],
+    "telegram": ["/s/joinchat", "/joinchat", "/s"],
+    "google": ["/d/e/", "/d/", "/url", "amp"],
+}
 
 HOST_FORMS = ["%s", "http://%s", "https://www.%s", "//%s", "HTTPS://WWW.%s", "https://m.%s", "http://u:p@%s", "%s:8080", "ftp://%s",
               " %s", "http://%s.", "not%s", "%s.evil.org", "evil.org/%s", "http://evil.org/?u=http://%s"]
@@ -172,5 +176,18 @@ def _cls(v):
 
 
 def record_shape(rec, fields):
-    """triage label: which fields are set and what their values look like"""
-    return ",".join("%s:%s" % (f, _cls(getattr(rec, f))) for f in fields if getattr(rec, f) is not None)
+    """triage label: which fields are set; what the value looks like for empty / dot-segment values and for the id-or-handle
+    fields of a FacebookPost (where digits decide between id and handle)"""
+    out = []
+    for f in fields:
+        v = getattr(rec, f)
+        if v is None:
+            continue
+        c = _cls(v)
+        if v in (".", ".."):
+            out.append("%s:dot-segment" % f)
+        elif c == "empty" or (type(rec).__name__ == "FacebookPost" and f != "id"):
+            out.append("%s:%s" % (f, c))
+        else:
+            out.append(f)
+    return ",".join(out)
